@@ -778,8 +778,10 @@ impl Eraser {
             // operands that are un-instrumented `+` expressions (plus operator not enabled) left out of the list
             let without_sums: Vec<&Value> = expected.iter().filter(|e| !(ty(&e["expression"]) == "BinaryExpression" && e["expression"]["operator"] == json!("+"))).collect();
             let plain_sum_omitted = without_sums.len() == rest.len() && without_sums.iter().zip(rest).all(|(e, r)| equal_ignoring_meta(e, r));
+            // `apply(thisArg, [..], surplus..)`: the surplus arguments are treated like argument arrays (known finding)
+            let apply_surplus = kind == "apply" && a0["arguments"].as_array().map(|a| a.len() > 2).unwrap_or(false);
             return soft(
-                if lit_sum { "hook-args:literal-sum" } else if plain_sum_omitted { "hook-args:plain-sum-omitted" } else { "hook-args" },
+                if lit_sum { "hook-args:literal-sum" } else if plain_sum_omitted { "hook-args:plain-sum-omitted" } else if apply_surplus { "hook-args:apply-surplus-argument" } else { "hook-args" },
                 format!("hook {name} ({kind}): {} operand(s) passed, the operation has {}: {} vs {}", rest.len(), expected.len(), brief(&json!(rest)), brief(&json!(expected))),
             );
         }
